@@ -72,12 +72,13 @@ def setup() -> int:
     if bad:
         log("forbidden constructs in the Coq development:\n  " + "\n  ".join(bad))
         return 1
-    for t in translators():
-        o = run_translator(t)
-        log(f"translate {t}: {'ok' if o.ok else 'FAILED ' + o.detail}")
-        if not o.ok:
-            return 1
-    ok, out, dt = coqrun.make(None, timeout=3000)
+    with coqrun.locked():
+        for t in translators():
+            o = run_translator(t)
+            log(f"translate {t}: {'ok' if o.ok else 'FAILED ' + o.detail}")
+            if not o.ok:
+                return 1
+        ok, out, dt = coqrun.make(None, timeout=3000)
     if not ok:
         log(out[-6000:])
         log("setup: Coq build FAILED")
@@ -118,22 +119,21 @@ def decide(prop: str, tier: str, seed: int) -> int:
     obligs: list[Obligation] = []
     theorem_info = []
 
-    # 1. translate -----------------------------------------------------------
-    for g in getattr(mod, "GEN", []):
-        obligs.append(run_translator(g))
-    translate_ok = all(o.ok for o in obligs)
-
-    # 2. prove ---------------------------------------------------------------
     props_file = mod.PROPS_FILE
     theorems = coqrun.theorems_of(props_file)
     target = props_file[:-2] + ".vo"
-    ok, out, dt = coqrun.make([target])
     axioms = {}
-    if ok:
-        pa_ok, axioms, raw = coqrun.print_assumptions(props_file)
-        ok = pa_ok
-        if not pa_ok:
-            out = raw
+    with coqrun.locked():
+        # 1. translate -------------------------------------------------------
+        for g in getattr(mod, "GEN", []):
+            obligs.append(run_translator(g))
+        # 2. prove -----------------------------------------------------------
+        ok, out, dt = coqrun.make([target])
+        if ok:
+            pa_ok, axioms, raw = coqrun.print_assumptions(props_file)
+            ok = pa_ok
+            if not pa_ok:
+                out = raw
     allowed = set(getattr(mod, "ALLOWED_AXIOMS", []))
     for th in theorems:
         if not ok:
